@@ -1007,7 +1007,7 @@ def run_real(insts, impl='vpsc', tag='mp', timeout=120):
     return parse_cpp(out)
 
 
-def gen_mp_base(rng, iid, nmax):
+def gen_mp_base(rng, iid, nmax, solve_num=3):
     """first solve of a mean-preserving re-solve history: DAG (a chain in a random order + forward edges), dyadic weights and
     scales (so that sum w*a*d over a block is computed exactly in binary64), desired positions that press the variables
     together into one or several multi-variable blocks"""
@@ -1040,7 +1040,7 @@ def gen_mp_base(rng, iid, nmax):
                 a, b = b, a
             cs.append((a, b, Fr(rng.range(0, 3)), False))
     cs = rng.shuffle(cs)
-    return {'id': iid, 'kind': 'I', 'vs': vs, 'cs': cs, 'ops': [('S',) if rng.chance(3, 4) else ('F',)],
+    return {'id': iid, 'kind': 'I', 'vs': vs, 'cs': cs, 'ops': [('S',) if rng.chance(solve_num, 4) else ('F',)],
             'tag': 'mp-' + shape + ('+wt' if wmode else '') + ('+scaled' if smode else '')}
 
 
@@ -1074,12 +1074,12 @@ def mp_perturb(rng, ins, res, which='some'):
     return rng.shuffle(ops), len(multi)
 
 
-def gen_mp_histories(rng, n, nmax, impl, first_id, rounds=(1, 2, 2, 3)):
+def gen_mp_histories(rng, n, nmax, impl, first_id, rounds=(1, 2, 2, 3), solve_num=3):
     """the directed family `mean-preserving re-solve`: solve; look at the block partition the REAL solver returned; move
     the desired positions of (some / all) multi-variable blocks by weighted-zero-sum dyadic perturbations; solve or
     satisfy again on the same solver; up to 3 rounds (each from the partition of the previous return; one variant goes
     back to the previous desired positions).  The histories are then judged like every other history."""
-    insts = [gen_mp_base(rng, first_id + k, nmax) for k in range(n)]
+    insts = [gen_mp_base(rng, first_id + k, nmax, solve_num) for k in range(n)]
     nr = {ins['id']: rng.choice(list(rounds)) for ins in insts}
     stats = {'instances': n, 'rounds': 0, 'blocks_perturbed': 0}
     for rd in range(max(rounds)):
@@ -1101,7 +1101,7 @@ def gen_mp_histories(rng, n, nmax, impl, first_id, rounds=(1, 2, 2, 3)):
             if not ops:
                 nr[ins['id']] = 0
                 continue
-            ins['ops'] = list(ins['ops']) + ops + [('S',) if rng.chance(3, 4) else ('F',)]
+            ins['ops'] = list(ins['ops']) + ops + [('S',) if rng.chance(solve_num, 4) else ('F',)]
             stats['rounds'] += 1
             stats['blocks_perturbed'] += nb
     for ins in insts:
